@@ -1,8 +1,350 @@
+import CV.Model.Cat
 import CV.Driver.Util
-/-! Line protocol for component `cat` (stub; owned by the component's author) -/
-namespace CV.Driver.Cat
-open CV CV.Driver
+/-!
+Line protocol for component `cat` (integer / fixed-point entropy models)
 
-def handle (_segs : List (List String)) : String := "bad-op"
+```
+cat.contig   B P probs infer            | op | op …
+cat.ncdec    B P syms probs infer       | op …
+cat.ncenc    B P syms probs infer       | op …
+cat.lookup   B P probs infer            | op …
+cat.nclookup B P syms probs infer       | op …
+cat.uniform  B P range                  | op …
+cat.fast     kind B P n syms            (kind ∈ dec enc lookup; n weights `1.0`; D13 glue)
+cat.valsweep B P n infer vals           (all tables of length n over `vals`, or `all`)
+cat.unisweep B P lo hi                  (all ranges in [lo, hi))
+cat.bsearch  arr q                      (transcription of `slice::binary_search_by`)
+```
+ops: `table`, `support`, `enc s`, `dec q`, `encs s,s,…`, `decs q,q,…`, `decsweep lo hi`,
+`encsweep lo hi`, `view`, `tolookup`, `togenenc`, `togendec`, `togenlookup`, `ascontig`,
+`intocontig`, `asnc`, `intonc`.
+-/
+namespace CV.Driver.Cat
+open CV CV.Driver CV.Cat
+
+inductive Mdl where
+  | contig (m : Contiguous)
+  | ncdec (m : NcDec Nat)
+  | ncenc (m : NcEnc Nat)
+  | lookup (m : Lookup)
+  | nclookup (m : NcLookup Nat)
+  | uniform (m : Uniform)
+
+/-- result of one step: `n/a`, a fault, or a value -/
+inductive R (α : Type) where
+  | na
+  | unsupported
+  | fault (f : Fault)
+  | val (a : α)
+
+def liftM {α : Type} : M α → R α
+  | .ok a => .val a
+  | .error f => .fault f
+
+def lookupOk (B : Nat) : Bool := B == 8 || B == 16
+
+def showTriple (t : Nat × Nat × Nat) : String :=
+  toHex t.1 ++ ":" ++ toHex t.2.1 ++ ":" ++ toHex t.2.2
+
+def showTable (l : List (Nat × Nat × Nat)) : String :=
+  if l.isEmpty then "-" else ",".intercalate (l.map showTriple)
+
+def mTable (B P : Nat) : Mdl → R (List (Nat × Nat × Nat))
+  | .contig m => liftM (m.table B)
+  | .ncdec m => liftM (m.table B)
+  | .ncenc _ => .na
+  | .lookup m => liftM (m.table B)
+  | .nclookup m => liftM (m.table B)
+  | .uniform m => liftM (m.table B P)
+
+def mEnc (B P : Nat) (s : Nat) : Mdl → R (Option (Nat × Nat))
+  | .contig m => liftM (m.enc B s)
+  | .ncenc m => .val (m.enc s)
+  | .uniform m => liftM (m.enc B P s)
+  | _ => .na
+
+def mDec (B P : Nat) (q : Nat) : Mdl → R (Nat × Nat × Nat)
+  | .contig m => liftM (m.dec B q)
+  | .ncdec m => liftM (m.dec B q)
+  | .lookup m => liftM (m.dec B P q)
+  | .nclookup m => liftM (m.dec B P q)
+  | .uniform m => liftM (m.dec B P q)
+  | .ncenc _ => .na
+
+def mSupport : Mdl → R Nat
+  | .contig m => liftM m.supportSize
+  | .ncdec m => liftM m.supportSize
+  | .ncenc m => .val m.supportSize
+  | _ => .na
+
+def bindR {α β : Type} : R α → (α → R β) → R β
+  | .na, _ => .na
+  | .unsupported, _ => .unsupported
+  | .fault f, _ => .fault f
+  | .val a, k => k a
+
+def mConv (B P : Nat) (op : String) (m : Mdl) : R Mdl :=
+  match op, m with
+  | "view", .contig m => .val (.contig m)
+  | "view", .ncdec m => .val (.ncdec m)
+  | "view", .lookup m => .val (.lookup m)
+  | "view", .nclookup m => .val (.nclookup m)
+  | "tolookup", .contig c =>
+      if lookupOk B then bindR (liftM (Lookup.fromContiguous B P c)) (fun l => .val (.lookup l))
+      else .unsupported
+  | "tolookup", .ncdec d =>
+      if lookupOk B then
+        bindR (liftM (d.table B)) (fun t => bindR (liftM (NcLookup.fromTable B P t)) (fun l => .val (.nclookup l)))
+      else .unsupported
+  | "ascontig", .lookup l => .val (.contig l.asContiguous)
+  | "intocontig", .lookup l => .val (.contig l.asContiguous)
+  | "asnc", .nclookup l => .val (.ncdec l.asNcDec)
+  | "intonc", .nclookup l => .val (.ncdec l.asNcDec)
+  | "togenenc", m =>
+      bindR (mTable B P m) (fun t => .val (.ncenc (NcEnc.fromTable t)))
+  | "togendec", m =>
+      bindR (mTable B P m) (fun t => bindR (liftM (NcDec.fromTable B P t)) (fun d => .val (.ncdec d)))
+  | "togenlookup", m =>
+      match m with
+      | .ncenc _ => .na
+      | _ =>
+        if lookupOk B then
+          bindR (mTable B P m) (fun t => bindR (liftM (NcLookup.fromTable B P t)) (fun l => .val (.nclookup l)))
+        else .unsupported
+  | _, _ => .na
+
+def showEnc : Option (Nat × Nat) → String
+  | none => "none"
+  | some (c, p) => toHex c ++ " " ++ toHex p
+
+/-- outputs for list forms: entries joined by `,` -/
+def encsGo (B P : Nat) (m : Mdl) : List Nat → List String → (String × Bool)
+  | [], acc => (if acc.isEmpty then "-" else ",".intercalate acc.reverse, false)
+  | s :: rest, acc =>
+    match mEnc B P s m with
+    | .na => ("n/a", false)
+    | .unsupported => ("unsupported", false)
+    | .fault f => (faultStr f, true)
+    | .val none => encsGo B P m rest ("x" :: acc)
+    | .val (some (c, p)) => encsGo B P m rest ((toHex c ++ ":" ++ toHex p) :: acc)
+
+def decsGo (B P : Nat) (m : Mdl) : List Nat → List String → (String × Bool)
+  | [], acc => (if acc.isEmpty then "-" else ",".intercalate acc.reverse, false)
+  | q :: rest, acc =>
+    match mDec B P q m with
+    | .na => ("n/a", false)
+    | .unsupported => ("unsupported", false)
+    | .fault f => (faultStr f, true)
+    | .val t => decsGo B P m rest (showTriple t :: acc)
+
+def showDigest (count : Nat) (h : UInt64) : String := toHex count ++ " " ++ toHex h.toNat
+
+def decSweepGo (B P : Nat) (m : Mdl) (hi : Nat) : Nat → Nat → UInt64 → (String × Bool)
+  | 0, _, h => (showDigest hi h, false)   -- unreachable for fuel = hi - lo + 1
+  | fuel + 1, q, h =>
+    if q ≥ hi then (showDigest (hi) h, false) else
+    match mDec B P q m with
+    | .na => ("n/a", false)
+    | .unsupported => ("unsupported", false)
+    | .fault f => (faultStr f, true)
+    | .val (s, c, p) => decSweepGo B P m hi fuel (q + 1) (digestStep (digestStep (digestStep h s) c) p)
+
+def encSweepGo (B P : Nat) (m : Mdl) (hi : Nat) : Nat → Nat → UInt64 → (String × Bool)
+  | 0, _, h => (showDigest hi h, false)
+  | fuel + 1, s, h =>
+    if s ≥ hi then (showDigest hi h, false) else
+    match mEnc B P s m with
+    | .na => ("n/a", false)
+    | .unsupported => ("unsupported", false)
+    | .fault f => (faultStr f, true)
+    | .val none => encSweepGo B P m hi fuel (s + 1) (digestStep h 0)
+    | .val (some (c, p)) => encSweepGo B P m hi fuel (s + 1) (digestStep (digestStep (digestStep h 1) c) p)
+
+def outR {α : Type} (r : R α) (m : Mdl) (k : α → (Mdl × String × Bool)) : (Mdl × String × Bool) :=
+  match r with
+  | .na => (m, "n/a", false)
+  | .unsupported => (m, "unsupported", false)
+  | .fault f => (m, faultStr f, true)
+  | .val a => k a
+
+/-- one op; returns new model, output, and whether the history died (panic) -/
+def doOp (B P : Nat) (m : Mdl) (seg : List String) : Option (Mdl × String × Bool) :=
+  match seg with
+  | ["table"] => some (outR (mTable B P m) m (fun t => (m, showTable t, false)))
+  | ["support"] => some (outR (mSupport m) m (fun n => (m, toHex n, false)))
+  | ["enc", s] => do
+      let s ← parseHex s
+      some (outR (mEnc B P s m) m (fun r => (m, showEnc r, false)))
+  | ["dec", q] => do
+      let q ← parseHex q
+      some (outR (mDec B P q m) m (fun t => (m, toHex t.1 ++ " " ++ toHex t.2.1 ++ " " ++ toHex t.2.2, false)))
+  | ["encs", l] => do
+      let l ← parseList l
+      let (o, d) := encsGo B P m l []
+      some (m, o, d)
+  | ["decs", l] => do
+      let l ← parseList l
+      let (o, d) := decsGo B P m l []
+      some (m, o, d)
+  | ["decsweep", lo, hi] => do
+      let lo ← parseHex lo
+      let hi ← parseHex hi
+      let (o, d) := decSweepGo B P m hi (hi - lo + 1) lo digestInit
+      some (m, o, d)
+  | ["encsweep", lo, hi] => do
+      let lo ← parseHex lo
+      let hi ← parseHex hi
+      let (o, d) := encSweepGo B P m hi (hi - lo + 1) lo digestInit
+      some (m, o, d)
+  | [op] =>
+      if ["view", "tolookup", "togenenc", "togendec", "togenlookup", "ascontig", "intocontig",
+          "asnc", "intonc"].contains op then
+        some (outR (mConv B P op m) m (fun m' => (m', "ok", false)))
+      else none
+  | _ => none
+
+def runOps (B P : Nat) : Mdl → List (List String) → List String → List String
+  | _, [], acc => acc.reverse
+  | m, seg :: rest, acc =>
+    match doOp B P m seg with
+    | none => ("bad-op" :: acc).reverse
+    | some (m', out, dead) =>
+      if dead then (out :: acc).reverse else runOps B P m' rest (out :: acc)
+
+def parseBool (s : String) : Option Bool :=
+  if s == "1" then some true else if s == "0" then some false else none
+
+/-- constructor segment → `R (Option Mdl)` (`none` = `Err(())`) -/
+def doCtor (seg : List String) : Option (Nat × Nat × R (Option Mdl)) :=
+  match seg with
+  | ["cat.contig", b, p, probs, infer] => do
+      let B ← parseHex b; let P ← parseHex p
+      let probs ← parseList probs; let infer ← parseBool infer
+      some (B, P, .val ((Contiguous.fromNonzeroFixedPoint B P probs infer).map .contig))
+  | ["cat.ncdec", b, p, syms, probs, infer] => do
+      let B ← parseHex b; let P ← parseHex p
+      let syms ← parseList syms
+      let probs ← parseList probs; let infer ← parseBool infer
+      some (B, P, bindR (liftM (NcDec.fromSymbolsAndNonzeroFixedPoint B P syms probs infer))
+        (fun o => .val (o.map .ncdec)))
+  | ["cat.ncenc", b, p, syms, probs, infer] => do
+      let B ← parseHex b; let P ← parseHex p
+      let syms ← parseList syms
+      let probs ← parseList probs; let infer ← parseBool infer
+      some (B, P, .val ((NcEnc.fromSymbolsAndNonzeroFixedPoint B P syms probs infer).map .ncenc))
+  | ["cat.lookup", b, p, probs, infer] => do
+      let B ← parseHex b; let P ← parseHex p
+      let probs ← parseList probs; let infer ← parseBool infer
+      if !lookupOk B then some (B, P, .unsupported) else
+      some (B, P, .val ((Lookup.fromNonzeroFixedPoint B P probs infer).map .lookup))
+  | ["cat.nclookup", b, p, syms, probs, infer] => do
+      let B ← parseHex b; let P ← parseHex p
+      let syms ← parseList syms
+      let probs ← parseList probs; let infer ← parseBool infer
+      if !lookupOk B then some (B, P, .unsupported) else
+      some (B, P, bindR (liftM (NcLookup.fromSymbolsAndNonzeroFixedPoint B P syms probs infer))
+        (fun o => .val (o.map .nclookup)))
+  | ["cat.uniform", b, p, range] => do
+      let B ← parseHex b; let P ← parseHex p
+      let range ← parseHex range
+      some (B, P, bindR (liftM (Uniform.new B P range)) (fun u => .val (some (.uniform u))))
+  | ["cat.fast", kind, b, p, n, syms] => do
+      let B ← parseHex b; let P ← parseHex p
+      let n ← parseHex n
+      let syms ← parseList syms
+      -- `fast_quantized_cdf` rejects `len < 2 || len >= 2^P - 1` (in `usize`); its output for `n`
+      -- equal weights is replaced by the placeholder `0, 1, …, n-1` (only lengths, symbols
+      -- and acceptance are observed through this line kind)
+      if n < 2 ∨ n ≥ wsub U (wrappingPow2 U P) 1 then some (B, P, .val none) else
+      let cdf := List.range n
+      match kind with
+      | "dec" => some (B, P, bindR (liftM (NcDec.fromSymbolsAndCdf B P syms cdf)) (fun o => .val (o.map .ncdec)))
+      | "enc" => some (B, P, bindR (liftM (NcEnc.fromSymbolsAndCdf B P syms cdf)) (fun o => .val (o.map .ncenc)))
+      | "lookup" =>
+        if !lookupOk B then some (B, P, .unsupported) else
+        some (B, P, bindR (liftM (NcLookup.fromSymbolsAndCdf B P syms cdf)) (fun o => .val (o.map .nclookup)))
+      | _ => none
+  | _ => none
+
+/-! ### sweeps -/
+
+/-- next table in lexicographic order over indices into `vals` (little end first);
+    `none` after the last -/
+def nextIdx (k : Nat) : List Nat → Option (List Nat)
+  | [] => none
+  | i :: rest =>
+    if i + 1 < k then some ((i + 1) :: rest)
+    else match nextIdx k rest with
+      | none => none
+      | some r => some (0 :: r)
+
+def digestList (h : UInt64) (l : List Nat) : UInt64 := l.foldl digestStep h
+
+partial def valSweepGo (B P : Nat) (infer : Bool) (vals : Array Nat) (idx : List Nat)
+    (count acc : Nat) (h : UInt64) : String :=
+  let probs := idx.map (fun i => vals[i]!)
+  let (acc, h) :=
+    match Contiguous.fromNonzeroFixedPoint B P probs infer with
+    | none => (acc, digestStep h 0)
+    | some m => (acc + 1, digestList (digestStep h 1) m.cdf)
+  match nextIdx vals.size idx with
+  | none => toHex (count + 1) ++ " " ++ toHex acc ++ " " ++ toHex h.toNat
+  | some idx => valSweepGo B P infer vals idx (count + 1) acc h
+
+def uniDigest (B P : Nat) (range : Nat) (h : UInt64) : UInt64 :=
+  match Uniform.new B P range with
+  | .error _ => digestStep h 0
+  | .ok u =>
+    let h := digestStep (digestStep (digestStep h 1) u.ppb) u.last
+    -- every symbol 0 ..= range (one past the end) and every quantile (if 2^P ≤ 2^12)
+    let h := (List.range (range + 2)).foldl (fun h s =>
+      match u.enc B P s with
+      | .ok (some (c, p)) => digestStep (digestStep (digestStep h 1) c) p
+      | .ok none => digestStep h 0
+      | .error _ => digestStep h 2) h
+    if P ≤ 12 then
+      (List.range (2^P)).foldl (fun h q =>
+        match u.dec B P q with
+        | .ok (s, c, p) => digestStep (digestStep (digestStep h s) c) p
+        | .error _ => digestStep h 2) h
+    else h
+
+def handle (segs : List (List String)) : String :=
+  match segs with
+  | [["cat.valsweep", b, p, n, infer, vals]] =>
+    match parseHex b, parseHex p, parseHex n, parseBool infer with
+    | some B, some P, some n, some infer =>
+      let vals : Option (Array Nat) :=
+        if vals == "all" then some (Array.range (2^B)) else (parseList vals).map List.toArray
+      match vals with
+      | some vals =>
+        if vals.size == 0 then "bad-op" else
+        valSweepGo B P infer vals (List.replicate n 0) 0 0 digestInit
+      | none => "bad-op"
+    | _, _, _, _ => "bad-op"
+  | [["cat.unisweep", b, p, lo, hi]] =>
+    match parseHex b, parseHex p, parseHex lo, parseHex hi with
+    | some B, some P, some lo, some hi =>
+      let h := (List.range (hi - lo)).foldl (fun h i => uniDigest B P (lo + i) h) digestInit
+      toHex (hi - lo) ++ " " ++ toHex h.toNat
+    | _, _, _, _ => "bad-op"
+  | [["cat.bsearch", arr, q]] =>
+    match parseList arr, parseHex q with
+    | some a, some q =>
+      match bsearch a q with
+      | .ok i => toHex i
+      | .error f => faultStr f
+    | _, _ => "bad-op"
+  | ctor :: ops =>
+    match doCtor ctor with
+    | none => "bad-op"
+    | some (B, P, r) =>
+      match r with
+      | .na => "n/a"
+      | .unsupported => "unsupported"
+      | .fault f => faultStr f
+      | .val none => "rejected"
+      | .val (some m) => " | ".intercalate (runOps B P m ops ["ok"])
+  | _ => "bad-op"
 
 end CV.Driver.Cat
